@@ -593,6 +593,11 @@ class EvalMixin:
         if isinstance(obj, VExc):
             if name in obj.attrs:
                 return obj.attrs[name]
+            if name == 'code' and self.exc_subclass(obj.cls, 'SystemExit'):
+                # SystemExit.code: None without arguments, the argument if there is one, else the tuple
+                if not obj.args:
+                    return SNone()
+                return obj.args[0] if len(obj.args) == 1 else STup(obj.args)
             if name == 'args':
                 return STup(obj.args) if all(getattr(a, 'shape', None) is not None for a in obj.args) else PyList(obj.args)
             if default is not None:
